@@ -16,6 +16,8 @@ struct PG {
 };
 std::vector<Step> foreign_program(Rng& r, int client, const gen::Pool& pool, int len);
 std::vector<Step> fa_history_program(Rng& r, int c, int ncl, int len);
+std::vector<Step> bdd_history_program(Rng& r, int c, const gen::Pool& pool, int len);
+std::vector<Step> et_history_program(Rng& r, int c, const gen::Pool& pool, int len);
 // profiles defined in other files (FA, BDD, MTBDD, text, C19, C20)
 bool generate_plan_ext(const std::string& profile, const std::string& tier, Rng& r, Plan& p);
 }
